@@ -58,6 +58,23 @@ template <typename... ArgTypes> inline void ___print___(ArgTypes... args) {
     std::exit(EXIT_FAILURE);                                                   \
   } while (0)
 
+#ifdef CRAB_VERIF_HOOKS
+/* Verification hook (add-only, off by default): CRAB_ERROR throws instead of
+   terminating the process, so that an external harness can record the error as
+   the observable outcome of one operation and continue with the next case. */
+} // end namespace crab
+#include <stdexcept>
+namespace crab {
+struct verif_error : public std::runtime_error {
+  verif_error() : std::runtime_error("CRAB_ERROR") {}
+};
+#undef CRAB_ERROR
+#define CRAB_ERROR(...)                                                        \
+  do {                                                                         \
+    throw ::crab::verif_error();                                               \
+  } while (0)
+#endif /* CRAB_VERIF_HOOKS */
+
 extern bool CrabWarningFlag;
 void CrabEnableWarningMsg(bool b);
 
